@@ -149,3 +149,35 @@ def mutate_sql(rng, sql):
     else:
         toks[i] = toks[i][: max(0, len(toks[i]) // 2)]
     return " ".join(toks)
+
+
+def jinja_block_template(rng):
+    """Multi-line templates whose tags sit on their own lines with varied indentation (loops with
+    several iterations, loop.last commas, if/else branches mid-expression)."""
+    ctx = {"cols": ["x", "y", "z"], "t": "tbl", "flag": True, "off": False, "n": 2, "name": "x"}
+    ind = lambda: rng.choice(["", "", "    ", "  ", "        "])
+    lines = [rng.choice(["SELECT", "select"])]
+    if rng.random() < 0.6:
+        lines.append(ind() + "a" + rng.choice(["", ","]))
+    it = rng.choice(["['x', 'y', 'z']", "cols", "['p', 'q']", "range(n)", "['only']"])
+    style = rng.random()
+    if style < 0.4:
+        lines.append(ind() + "{%% for c in %s %%}" % it)
+        lines.append(ind() + rng.choice([", {{ c }}", "{{ c }},", ",{{ c }}  AS c_{{ loop.index }}"]))
+        lines.append(ind() + "{% endfor %}")
+    elif style < 0.7:
+        lines.append(ind() + "{%% for c in %s %%}" % it)
+        lines.append(ind() + "{{ c }}{% if not loop.last %},{% endif %}")
+        lines.append(ind() + "{% endfor %}")
+    else:
+        lines.append(ind() + rng.choice(["x + ", "b, ", ""]) + "{% if flag %}1{% else %}222{% endif %}" + rng.choice(["", " AS v", "  as v"]))
+        if rng.random() < 0.5:
+            lines.append(ind() + "{% if off %}")
+            lines.append(ind() + ", extra_col")
+            lines.append(ind() + "{% endif %}")
+    lines.append(rng.choice(["FROM", "from"]) + rng.choice([" ", "  "]) + rng.choice(["tbl", "{{ t }}"]))
+    if rng.random() < 0.4:
+        lines.append(ind() + "{% if flag %}")
+        lines.append(ind() + rng.choice(["WHERE a = 1", "where a=1", "WHERE  x > 2"]))
+        lines.append(ind() + "{% endif %}")
+    return "\n".join(lines) + rng.choice(["\n", "", "\n\n"]), ctx
